@@ -224,3 +224,14 @@ Definition run_case (x : (bool * bool * bool * bool * bool) * list N * list N * 
   let '(c, prefix, meth, path) := x in
   let tr := handle (env_of c) (fun _ => false) false prefix meth path in
   (existsb is_auth_call tr, existsb is_reject tr, existsb is_dispatch tr).
+
+(* ---- specification side ---- *)
+(* path lies strictly below directory d: d, a slash, then anything (segment boundary) *)
+Definition under_dir (d path : list N) : Prop := exists rest, path = d ++ 47 :: rest.
+Definition pkce_on (e : env) : bool := e AAuth && (e AOauthMeta && e AClientId).
+(* the four classes of requests the property allows to bypass the callback *)
+Definition allowed (e : env) (prefix meth path : list N) : Prop :=
+  meth = s_OPTIONS \/
+  under_dir s_well_known path \/
+  (e AHealth = true /\ path = prefix ++ s_health) \/
+  (pkce_on e = true /\ under_dir (prefix ++ s_oauth) path).
